@@ -208,12 +208,31 @@ func fileContent(format, what string) []byte {
 			"samh": "@h\nq0\t0\tr\t1\t9\t1M\t*\t0\t0\tA\tI\nq1\t1\n@h2\nq2\t0\tr\t1\t9\t1M\t*\t0\t0\tA\tI\n",
 			"bed":  "a\t0\t1\nb\tx\t2\nc\t3\t4\n", "newick": "(a,b);(c;(d,e);"}[format]
 		return []byte(bad)
+	default:
+		if n, ok := strings.CutPrefix(what, "begins-with:"); ok {
+			var i int
+			fmt.Sscan(n, &i)
+			return append(append([]byte(fileBeginnings[i]), '\n'), corpus(format, "small")[0]...)
+		}
 	case "error":
 		bad := map[string]string{"fasta": "", "fastq": "@a\nA\n+\nI\n@b\nAC\n+\nI\n", "sam": "q\t0\tr\t1\t9\t1M\t*\t0\t0\tA\tI\nq\tx\n", "samh": "@h\nq\t1\n",
 			"bed": "a\t0\t1\nb\tx\t2\n", "newick": "(a,b);(c"}[format]
 		return []byte(bad)
 	}
 	return nil
+}
+
+// fileBeginnings: what a file may begin with that a sniffing opener could take for something else: the
+// magic numbers of firstbytes.go and the ways in which two bytes 1f 8b may fail to be a gzip header.
+var fileBeginnings = append(append([]string{}, magicNumbers...),
+	"\x1f", "\x1f\x8b", "\x1f\x8b\x08", "\x1f\x8b\x07\x00\x00\x00\x00\x00\x00\xff", "\x1f\x8b\x08\xe0\x00\x00\x00\x00\x00\xff", "\x1f\x8b\x08\x00\x00\x00\x00\x00\x00\xff", "\x1f\x8b\x08\x08\x00\x00\x00\x00\x00\xffname-without-end", "\x1f\x8b\x08\x04\x00\x00\x00\x00\x00\xff\xff\xff")
+
+func fileBeginningNames() []string {
+	var out []string
+	for i := range fileBeginnings {
+		out = append(out, fmt.Sprint("begins-with:", i))
+	}
+	return out
 }
 
 // fixedChunkReader delivers at most n bytes per Read.
@@ -582,10 +601,10 @@ func runC06(r *core.Run) {
 			return core.Outcome{Class: fmt.Sprint("end1%4096=", min(c.End1%4096, 2), " items=", min(len(got), 2)), Nontrivial: true, Evals: 2}
 		})
 
-	core.Clause(r, "file-grid", core.Opts{Rule: "every format (SAM: File and FileHeader) x {plain, .gz written with compress/gzip} x content {empty file, one record, many records, a file whose decode ends in an error item, the 9 KiB file, the long-line file, a file with one line of 70 000 bytes, one with a line of 2 MiB, a ~300 KiB file} plus a multi-member .gz: File(path) yields what Reader yields on the bytes; a missing path yields exactly one item, an error - also when its compressed or uncompressed twin, a backup, another compression or an upper-case twin exists next to it; names with a meaning for command-line tools or URL-aware openers (\"-\", the empty name, \"stdin\", \"~\", http:// and file:// URLs) are ordinary missing paths; how the path reaches the file plays no role (blanks and non-ASCII in it, a directory whose name ends in .gz, a symbolic link, a relative path, dot segments); non-trivial = all"},
+	core.Clause(r, "file-grid", core.Opts{Rule: "every format (SAM: File and FileHeader) x {plain, .gz written with compress/gzip} x content {empty file, one record, many records, a file whose decode ends in an error item, the 9 KiB file, the long-line file, a file with one line of 70 000 bytes, one with a line of 2 MiB, a ~300 KiB file, files that begin with the magic number of another file type or with a broken gzip header} plus a multi-member .gz: File(path) yields what Reader yields on the bytes; a missing path yields exactly one item, an error - also when its compressed or uncompressed twin, a backup, another compression or an upper-case twin exists next to it; names with a meaning for command-line tools or URL-aware openers (\"-\", the empty name, \"stdin\", \"~\", http:// and file:// URLs) are ordinary missing paths; how the path reaches the file plays no role (blanks and non-ASCII in it, a directory whose name ends in .gz, a symbolic link, a relative path, dot segments); non-trivial = all"},
 		func(emit func(c06File) bool) {
 			for _, f := range formats {
-				for _, what := range []string{"empty", "one", "many", "error", "error-middle", "large", "longline", "line-70KiB", "line-2MiB", "huge", "gzip-magic", "zstd-magic", "gzip-bytes", "missing", "missing-next-to-compressed-twin", "missing-next-to-plain-twin", "missing-next-to-backup", "missing-next-to-other-compression", "missing-next-to-upper-case-twin", "missing-special-name:-", "missing-special-name:", "missing-special-name:stdin", "missing-special-name:/dev/stdin/x", "missing-special-name:~", "missing-special-name:http://example.org/x.fa", "missing-special-name:file:///etc/hostname", "path:space-and-unicode", "path:dir-named-like-gz", "path:symlink", "path:relative", "path:dot-segments"} {
+				for _, what := range append(fileBeginningNames(), "empty", "one", "many", "error", "error-middle", "large", "longline", "line-70KiB", "line-2MiB", "huge", "gzip-magic", "zstd-magic", "gzip-bytes", "missing", "missing-next-to-compressed-twin", "missing-next-to-plain-twin", "missing-next-to-backup", "missing-next-to-other-compression", "missing-next-to-upper-case-twin", "missing-special-name:-", "missing-special-name:", "missing-special-name:stdin", "missing-special-name:/dev/stdin/x", "missing-special-name:~", "missing-special-name:http://example.org/x.fa", "missing-special-name:file:///etc/hostname", "path:space-and-unicode", "path:dir-named-like-gz", "path:symlink", "path:relative", "path:dot-segments") {
 					for _, gz := range []bool{false, true} {
 						emit(c06File{f.Name, what, gz})
 					}
